@@ -41,12 +41,14 @@ class Ctx(object):
         self.drbgs = {}
         self.now = 1700000000.0
         self.virtual_time = True
+        self.skew = {}            # per-endpoint clock offset (seconds)
 
     def reset(self, case, now=1700000000.0):
         self.case = case
         self.cur = "-"
         self.drbgs = {}
         self.now = now
+        self.skew = {}
 
     def urandom(self, n):
         d = self.drbgs.get(self.cur)
@@ -55,7 +57,7 @@ class Ctx(object):
         return d.read(n)
 
     def time(self):
-        return self.now if self.virtual_time else _real_time()
+        return (self.now + self.skew.get(self.cur, 0)) if self.virtual_time else _real_time()
 
 
 CTX = Ctx()
